@@ -196,3 +196,22 @@ def check_lost_product_chain(ctx, consequence: str):
     up = [c for c in calls if callee_name(c) == "after_lost_product" and isinstance(c.func, ast.Attribute) and ast.unparse(c.func.value) != "self" and not ast.unparse(c.func.value).startswith("super")]
     ctx.check(own, alp.fq, "a step that lost a product drops its hash", "the step keeps a hash that no longer describes a complete run", "delete_hash")
     ctx.check(bool(up), alp.fq, "the invalidation is handed on to the detached creator (recursively)", consequence, "creator.after_lost_product()", where=ctx.where_of(alp))
+
+
+def check_edge_delete_flags_suppliers(ctx, consequence: str):
+    """The need (and tail time) of a step is defined over its consumers two dependency hops downstream
+    (step -> file -> step).  When an edge file -> consumer is *deleted*, the recomputation that starts at the
+    flagged consumer follows the remaining edges and can no longer reach the producers of that file, so the delete
+    trigger itself has to flag them: `node IN (SELECT source FROM dependency WHERE sink = OLD.source)`."""
+    import re
+
+    trigs = [t for t in ctx.cat.triggers.values() if t.table == "dependency" and t.op == "DELETE"]
+    if not trigs:
+        raise AnalysisError("no DELETE trigger on dependency")
+    ok = False
+    for t in trigs:
+        body = re.sub(r"\s+", " ", t.body)
+        for stmt in body.split(";"):
+            if re.search(r"UPDATE step SET _check_after = 1", stmt) and re.search(r"SELECT source FROM dependency WHERE sink = OLD \. source", stmt):
+                ok = True
+    ctx.check(ok, "step.STEP_SCHEMA", "deleting an edge flags the producers of its source file (two hops upstream of the lost consumer)", consequence, "trigger flags suppliers of OLD.source", where="trigger " + ", ".join(t.name for t in trigs))
